@@ -20,18 +20,20 @@
 (***************************************************************************)
 EXTENDS Integers, Sequences, FiniteSets, TLC
 
-CONSTANTS Kind,      \* "periodic" | "iterable"
+CONSTANTS Kind,      \* "periodic" | "iterable" | "polling" (from_kafka: poll; a message -> emit it and poll again, none -> sleep)
+          DoWhile,   \* polling: TRUE = the pinned tree's loop, which tests `stopped` only *after* a poll (a loop instance that
+                     \* finds the source stopped when it first runs still polls once); FALSE = test first
           NI,        \* iterable: number of items; periodic: bound on emissions explored
           Poll,      \* periodic: sleep between cycles (clock units)
           MaxLoops,  \* pool of run-loop instances
           MaxTime, MaxCalls, Guarded, SyncCons
 
 VARIABLES stopped, pc, wake, nextItem, emitted, busy, now, ncalls
-\* pc[i]: "unused" | "scheduled" | "check" | "emitting" | "sleeping" | "done"
+\* pc[i]: "unused" | "scheduled" | "check" | "poll" | "emitting" | "sleeping" | "done"
 \* emitted: <<item, time, loop instance, stopped-at-that-moment>>; busy: the consumer of loop i's emission is unfinished
 vars == <<stopped, pc, wake, nextItem, emitted, busy, now, ncalls>>
 Loops == 1 .. MaxLoops
-Active(i) == pc[i] \in {"scheduled", "check", "emitting", "sleeping"}
+Active(i) == pc[i] \in {"scheduled", "check", "poll", "emitting", "sleeping"}
 
 Init ==
     /\ stopped = TRUE /\ pc = [i \in Loops |-> "unused"] /\ wake = [i \in Loops |-> 0]
@@ -55,13 +57,21 @@ Stop ==
 
 \* the scheduled run() callback starts
 Begin(i) ==
-    /\ pc[i] = "scheduled" /\ pc' = [pc EXCEPT ![i] = "check"]
+    /\ pc[i] = "scheduled" /\ pc' = [pc EXCEPT ![i] = IF Kind = "polling" /\ DoWhile THEN "poll" ELSE "check"]
     /\ UNCHANGED <<stopped, wake, nextItem, emitted, busy, now, ncalls>>
 
 \* loop test; a new cycle begins (and emits) only if not stopped
 Check(i) ==
     /\ pc[i] = "check"
-    /\ IF stopped \/ (Kind = "iterable" /\ nextItem > NI)
+    /\ IF Kind = "polling" /\ ~stopped
+       THEN \* the loop test and the poll are one atomic section: a message -> emit it; none -> sleep
+            \/ /\ nextItem <= NI
+               /\ emitted' = Append(emitted, <<nextItem, now, i, stopped>>) /\ nextItem' = nextItem + 1
+               /\ busy' = IF SyncCons THEN busy ELSE busy \cup {i}
+               /\ pc' = [pc EXCEPT ![i] = "emitting"] /\ UNCHANGED stopped
+            \/ /\ pc' = [pc EXCEPT ![i] = "sleeping"] /\ UNCHANGED <<stopped, nextItem, emitted, busy>>
+       ELSE
+       IF stopped \/ (Kind = "iterable" /\ nextItem > NI)
        THEN /\ pc' = [pc EXCEPT ![i] = "done"]
             /\ stopped' = IF Kind = "iterable" THEN TRUE ELSE stopped
             /\ UNCHANGED <<nextItem, emitted, busy>>
@@ -71,7 +81,20 @@ Check(i) ==
             /\ busy' = IF SyncCons THEN busy ELSE busy \cup {i}
             /\ pc' = [pc EXCEPT ![i] = "emitting"]
             /\ UNCHANGED stopped
-    /\ UNCHANGED <<wake, now, ncalls>>
+    /\ wake' = IF Kind = "polling" /\ pc'[i] = "sleeping" THEN [wake EXCEPT ![i] = now + Poll] ELSE wake
+    /\ UNCHANGED <<now, ncalls>>
+
+\* from_kafka (DoWhile only: the first poll of a loop instance, made without testing `stopped`): one poll of the client -- the environment decides whether a message is there
+PollMsg(i) ==
+    /\ Kind = "polling" /\ pc[i] = "poll" /\ nextItem <= NI
+    /\ emitted' = Append(emitted, <<nextItem, now, i, stopped>>) /\ nextItem' = nextItem + 1
+    /\ busy' = IF SyncCons THEN busy ELSE busy \cup {i}
+    /\ pc' = [pc EXCEPT ![i] = "emitting"]
+    /\ UNCHANGED <<stopped, wake, now, ncalls>>
+PollNone(i) ==
+    /\ Kind = "polling" /\ pc[i] = "poll"
+    /\ pc' = [pc EXCEPT ![i] = "sleeping"] /\ wake' = [wake EXCEPT ![i] = now + Poll]
+    /\ UNCHANGED <<stopped, nextItem, emitted, busy, now, ncalls>>
 
 ConsumerDone(i) ==
     /\ i \in busy /\ busy' = busy \ {i}
@@ -90,19 +113,19 @@ Wake(i) ==
     /\ pc' = [pc EXCEPT ![i] = "check"]
     /\ UNCHANGED <<stopped, wake, nextItem, emitted, busy, now, ncalls>>
 
-Runnable(i) == pc[i] \in {"scheduled", "check"} \/ (pc[i] = "emitting" /\ i \notin busy)
+Runnable(i) == pc[i] \in {"scheduled", "check", "poll"} \/ (pc[i] = "emitting" /\ i \notin busy)
                \/ (pc[i] = "sleeping" /\ now >= wake[i])
 Advance ==
     /\ now < MaxTime /\ \A i \in Loops : ~Runnable(i)
     /\ now' = now + 1
     /\ UNCHANGED <<stopped, pc, wake, nextItem, emitted, busy, ncalls>>
 
-Internal == \E i \in Loops : Begin(i) \/ Check(i) \/ EmitReturn(i) \/ Wake(i)
+Internal == \E i \in Loops : Begin(i) \/ Check(i) \/ PollMsg(i) \/ PollNone(i) \/ EmitReturn(i) \/ Wake(i)
 Next == Start \/ Stop \/ Internal \/ (\E i \in Loops : ConsumerDone(i)) \/ Advance
 Spec == Init /\ [][Next]_vars
 
 ----------------------------------------------------------------------------
-TypeOK == \A i \in Loops : pc[i] \in {"unused", "scheduled", "check", "emitting", "sleeping", "done"}
+TypeOK == \A i \in Loops : pc[i] \in {"unused", "scheduled", "check", "poll", "emitting", "sleeping", "done"}
 \* C18: at most one polling loop at any time
 AtMostOneActive == Cardinality({i \in Loops : Active(i)}) <= 1
 \* C18: nothing is emitted twice or out of order; one emission in flight at a time
